@@ -28,13 +28,16 @@ Definition clamp3 (r g b : pynum) : triple := (clamp255 (c_int r), clamp255 (c_i
 
 Definition dr_set (p : pins3) (r g b : pynum) : drgb * list dev := dr_write p (clamp3 r g b).
 
-(* RGBLedFade: one interpolated component at step i of n
-     long num = (long)(target - start) * i;  if (num >= 0) num += n / 2; else num -= n / 2;
-     int v = start + (int)(num / n);                (C division truncates toward zero) *)
+(* RGBLedFade: one interpolated component at step i of n - nearest integer, a half to the even one
+     long num = (long)start * n + (long)(target - start) * i;     (num >= 0 on the device)
+     int v = (int)(num / n);  num = 2 * (num % n);               (C division truncates toward zero; num is reused
+                                                                   for twice the remainder: below q = v, 2 * r = num)
+     if ((num > n) || ((num == n) && ((v % 2) != 0))) ++v; *)
 Definition c_interp (n s t i : Z) : Z :=
-  let num := (t - s) * i in
-  let num' := if 0 <=? num then num + Z.quot n 2 else num - Z.quot n 2 in
-  s + Z.quot num' n.
+  let num := s * n + (t - s) * i in
+  let q := Z.quot num n in
+  let r := Z.rem num n in
+  if (n <? 2 * r) || ((2 * r =? n) && negb (Z.rem q 2 =? 0)) then q + 1 else q.
 
 Definition c_interp3 (n : Z) (s t : triple) (i : Z) : triple :=
   let '(s1, s2, s3) := s in let '(t1, t2, t3) := t in
@@ -130,26 +133,17 @@ Definition drtr (p : pins3) (st : drgb) (ops : list RGBLed.op) : list tev := map
 (* ---- the guard ---- *)
 Definition comp_ok (x : pynum) : bool := match validate_component x with None => true | Some _ => false end.
 
-(* step i of n between s and t lands exactly on a half: the host rounds half-even, the device half away from zero *)
+(* step i of n between s and t lands exactly on a half (both sides round it to the even neighbour; used by the
+   non-vacuity examples only - no guard mentions it since the repair of F-C04-rgb-fade-half-rounding) *)
 Definition tie (n s t i : Z) : bool := (2 * (t - s) * i) mod (2 * n) =? n.
 
-Fixpoint tie_free_upto (k : nat) (i n s t : Z) : bool :=
-  match k with
-  | O => true
-  | S k' => negb (tie n s t i) && tie_free_upto k' (i + 1) n s t
-  end.
-
-Definition tie_free3 (n : Z) (s t : triple) : bool :=
-  let '(s1, s2, s3) := s in let '(t1, t2, t3) := t in
-  tie_free_upto (Z.to_nat n) 1 n s1 t1 && tie_free_upto (Z.to_nat n) 1 n s2 t2 && tie_free_upto (Z.to_nat n) 1 n s3 t3.
-
-(* in-range arguments; [cur] is the colour at the time of the call (fade's tie condition depends on it) *)
+(* in-range arguments ([cur], the colour at the time of the call, is no longer looked at: kept so that the guard
+   keeps its shape) *)
 Definition rgb_in_range (cur : triple) (o : RGBLed.op) : bool :=
   match o with
   | SetColor r g b | On r g b => comp_ok r && comp_ok g && comp_ok b
   | Fade r g b d n =>
-      comp_ok r && comp_ok g && comp_ok b && nonneg d && integral d && is_pos n && is_intlike n &&
-      tie_free3 (zval n) cur (zval r, zval g, zval b)
+      comp_ok r && comp_ok g && comp_ok b && nonneg d && integral d && is_pos n && is_intlike n
   | Blink r g b t d => comp_ok r && comp_ok g && comp_ok b && is_pos t && is_intlike t && nonneg d
   | Off => true
   | _ => false          (* no getters on the device *)
